@@ -31,6 +31,8 @@ def main():
     dd = os.path.join(driver.VERIF, "known", prop)
     os.makedirs(dd, exist_ok=True)
     dst = os.path.join(dd, re.sub(r"[^A-Za-z0-9_.-]+", "_", key)[:110] + ".case")
+    while os.path.exists(dst):  # never overwrite the replay of another record
+        dst = dst[:-5] + "_.case"
     shutil.copy(src, dst)
     mod, libcfg = driver.case_meta(dst)
     code, rkey, txt = driver.replay_case(hbuild.build_harness(libcfg), mod, dst, libcfg)
